@@ -32,6 +32,8 @@ pub trait Controller: Send + Sync + 'static {
     fn new_id(&self) -> Option<Scru128Id>;
     /// Tunable constants (channel capacities, ...).
     fn knob(&self, name: &'static str, default: usize) -> usize;
+    /// A fresh number per call, used to tell concurrent reads apart in point details.
+    fn seq(&self, name: &'static str) -> u64;
 }
 
 static CONTROLLER: RwLock<Option<Arc<dyn Controller>>> = RwLock::new(None);
@@ -108,5 +110,12 @@ pub fn knob(name: &'static str, default: usize) -> usize {
     match controller() {
         Some(c) => c.knob(name, default),
         None => default,
+    }
+}
+
+pub fn seq(name: &'static str) -> u64 {
+    match controller() {
+        Some(c) => c.seq(name),
+        None => 0,
     }
 }
